@@ -117,6 +117,8 @@ class PEval(Folder):
                     v = v[1][i] if i < len(v[1]) else TOP
                 elif v[0] == "adt":
                     v = v[4][i] if i < len(v[4]) else TOP
+                elif v[0] == "closure":
+                    v = v[2][i] if i < len(v[2]) else TOP
                 else:
                     return TOP
             elif isinstance(e, dict) and ("idx" in e or "cidx" in e):
@@ -302,6 +304,8 @@ class PEval(Folder):
                         return mk_int("usize", tgt[1])
                     if tgt[0] == "symslice":
                         return mk_int("usize", tgt[2] - tgt[1])
+        elif k == "agg" and rv.get("agg") == "closure":
+            return ("closure", rv.get("path"), tuple(self._operand(st, o) for o in rv["ops"]))
         elif k in ("ref", "rawptr"):
             # resolve index projections of this frame before the generic code sees them
             p = rv["p"]
@@ -512,6 +516,10 @@ class PEval(Folder):
     # ------------------------------------------------------------------- calls
     def _call(self, st, t):
         name = t.get("callee") or t.get("declared")
+        if name is None and t.get("indirect"):
+            fv = self._operand(st, t["indirect"])
+            if fv != TOP and fv[0] == "fn":
+                name = fv[1]
         args = [self._operand(st, a) for a in t["args"]]
         self.calls_seen[name] = self.calls_seen.get(name, 0) + 1
         fidx = len(st.frames) - 1
@@ -539,6 +547,12 @@ class PEval(Folder):
             self._enter_block(st, t["target"])
             return
         callee = self.facts.fn(name) if name else None
+        if callee is not None and callee.raw["kind"] == "Closure":
+            # Fn*/call*(env, (a, b, ..)): the closure body takes its arguments untupled
+            if len(args) == 2 and args[1] != TOP and args[1][0] == "tuple":
+                self._push_frame(st, callee, [args[0]] + list(args[1][1]), t["dest"], t["target"])
+                return
+            raise _Abort("top", "closure called with an unknown argument tuple")
         if callee is not None and callee.raw["kind"] != "Closure":
             key = self._memo_key(st, name, args)
             if key is not None and key in self.memo:
@@ -588,6 +602,35 @@ class PEval(Folder):
         if fr[3] >= len(blk["stmts"]) and blk["term"]["k"] == "ret" and len(fr) > 6:
             self.memo[fr[6]] = fr[1].get(0, UNIT)
         return super()._step(st)
+
+    def invoke_closure(self, st, clo, args):
+        """run a closure value to completion on top of the current frames and return its result"""
+        c = clo
+        if c != TOP and c[0] == "ref":
+            c = self._load_ptr(st, c[1])
+        if c == TOP or c[0] not in ("closure", "fn"):
+            raise _Abort("top", "call of an unknown closure")
+        callee = self.facts.fn(c[1])
+        if callee is None:
+            raise _Abort("top", "closure body %s not available" % c[1])
+        depth = len(st.frames)
+        env = [] if c[0] == "fn" else [("ref", ("const", c))]
+        # by-value closures (FnOnce / move) take the environment itself
+        if c[0] == "closure" and callee.raw["locals"][1]["ty"].startswith("&") is False:
+            env = [c]
+        self._push_frame(st, callee, env + list(args), None, None)
+        while True:
+            fr = st.frames[-1]
+            blk = fr[0].blocks[fr[2]]
+            if len(st.frames) == depth + 1 and fr[3] >= len(blk["stmts"]) and blk["term"]["k"] == "ret":
+                val = fr[1].get(0, UNIT)
+                st.frames.pop()
+                return val
+            self.sym_steps += 1
+            if self.sym_steps > self.max_steps:
+                raise _Abort("top", "step budget exhausted in a closure")
+            if self._step(st) is not None:
+                raise _Abort("top", "evaluation ended inside a closure")
 
     # -------------------------------------------------------------- public API
     def call(self, fn_path, args, cells=None):
@@ -702,6 +745,57 @@ def _take(pe, st, args, t):
     return ("iter", tuple(a[1][a[2]:a[2] + n[2]]), 0)
 
 
+def _truth(v, what):
+    if v == TOP or v[0] != "bool":
+        raise _Abort("top", "%s: closure result is not a known boolean" % what)
+    return v[1]
+
+
+@pmodel("std::iter::Iterator::filter")
+def _filter(pe, st, args, t):
+    it = _as_iter(pe, st, args[0])
+    if it is None:
+        raise _Abort("top", "filter() of an unknown iterator")
+    out = []
+    for x in it[1][it[2]:]:
+        # the predicate receives a reference to the item
+        if _truth(pe.invoke_closure(st, args[1], [("ref", ("const", x))]), "filter"):
+            out.append(x)
+    return ("iter", tuple(out), 0)
+
+
+@pmodel("std::iter::Iterator::map")
+def _map(pe, st, args, t):
+    it = _as_iter(pe, st, args[0])
+    if it is None:
+        raise _Abort("top", "map() of an unknown iterator")
+    return ("iter", tuple(pe.invoke_closure(st, args[1], [x]) for x in it[1][it[2]:]), 0)
+
+
+@pmodel("std::iter::Iterator::all", "std::iter::Iterator::any", "std::iter::Iterator::position")
+def _all_any(pe, st, args, t):
+    name = (t.get("callee") or t.get("declared") or "").split("::")[-1]
+    r = args[0]
+    cur = _deref(pe, st, r)
+    it = _as_iter(pe, st, cur)
+    if it is None or r == TOP or r[0] != "ref":
+        raise _Abort("top", "%s() of an unknown iterator" % name)
+    vals = it[1][it[2]:]
+    for k, x in enumerate(vals):
+        b = _truth(pe.invoke_closure(st, args[1], [x]), name)
+        if name == "all" and not b:
+            pe.store_ptr(st, r[1], ("iter", it[1], it[2] + k + 1))
+            return mk_bool(False)
+        if name == "any" and b:
+            pe.store_ptr(st, r[1], ("iter", it[1], it[2] + k + 1))
+            return mk_bool(True)
+        if name == "position" and b:
+            pe.store_ptr(st, r[1], ("iter", it[1], it[2] + k + 1))
+            return some(mk_int("usize", k))
+    pe.store_ptr(st, r[1], ("iter", it[1], len(it[1])))
+    return mk_bool(True) if name == "all" else (mk_bool(False) if name == "any" else NONE)
+
+
 @pmodel("std::iter::Iterator::skip")
 def _skip(pe, st, args, t):
     a, n = _as_iter(pe, st, args[0]), args[1]
@@ -719,6 +813,9 @@ def _skip(pe, st, args, t):
         "<std::iter::Chain<A, B> as std::iter::Iterator>::next",
         "<std::iter::Skip<I> as std::iter::Iterator>::next",
         "<std::iter::Zip<A, B> as std::iter::Iterator>::next",
+        "<std::iter::Filter<I, P> as std::iter::Iterator>::next",
+        "<std::iter::Map<I, F> as std::iter::Iterator>::next",
+        "<std::iter::Cycle<I> as std::iter::Iterator>::next",
         "<std::iter::Take<I> as std::iter::Iterator>::next",
         "<std::slice::Iter<'a, T> as std::iter::Iterator>::next")
 def _next(pe, st, args, t):
